@@ -6,7 +6,7 @@ patch=$(realpath "$1"); prop=${2:-all}
 d=$(mktemp -d /tmp/pstry.XXXXXX)
 rsync -a --exclude .git /repo/ $d/
 if ! (cd $d && patch -p1 -s < "$patch"); then echo "PATCH-FAILED $patch"; rm -rf $d; exit 3; fi
-/verif/bin/pslint -prop $prop -root $d -no-evidence | sed "s#$d/##g" | grep -v ' 0 not discharged'
+${PSLINT:-/verif/bin/pslint} -prop $prop -root $d -no-evidence | sed "s#$d/##g" | grep -v ' 0 not discharged'
 rc=${PIPESTATUS[0]}
 rm -rf $d
 exit $rc
